@@ -676,7 +676,7 @@ class WaveSpectrum(DatasetWrapper):
         :return: peak indices
         """
         return xarray.DataArray(
-            self.e.where(self._range(fmin, fmax), 0).argmax(dim=NAME_F)
+            self.e.where(self._range(fmin, fmax), -np.inf).argmax(dim=NAME_F)
         )
 
     def peak_frequency(
